@@ -31,6 +31,8 @@ def check(ctx, run):
     loc = f'{b.file}:{b.line}'
     lossy = to_bits = False
     sign_cast = None
+    formula_unread = False
+    float_select = False
     const_image = []
     formula_ok = None
     rank_ok = True
@@ -121,6 +123,17 @@ def check(ctx, run):
                     u64cast = any(s[0] == 'cast' and s[3] == 'u64' for s in subterms(r))
                     if consts == [1, 63] and same and u64cast:
                         ok = True
+                if not any(s_[0] == 'bin' and s_[1] == 'Shr' for x in xs for s_ in subterms(x)):
+                    # the image is not written as an xor with a shifted sign mask at all (`if bits & SIGN != 0 { !bits } else { bits | SIGN }`,
+                    # a helper, a table): another formulation, which this rule does not evaluate
+                    formula_unread = True
+                    # ... except for one thing it can say: which of two transforms applies must be decided by the sign *bit*; a float comparison
+                    # with zero (`if n < 0.0`) sends -0.0 (and NaNs with the sign set) to the transform of the positive numbers
+                    if any(c[0][0] == 'bin' and c[0][1] in ('Lt', 'Le', 'Gt', 'Ge') and any(x_[0] == 'const' and len(x_) > 2 and x_[2] == 'f64' for x_ in (c[0][2], c[0][3]))
+                           and any(is_call(s_, 'Number::as_f64') or (s_[0] == 'field' and s_[1][0] == 'downcast' and s_[1][2] == 'Float64') for s_ in subterms(c[0]))
+                           for c in q.conds):
+                        float_select = True
+                    continue
                 formula_ok = ok if formula_ok is None else (formula_ok and ok)
     # the sign-bit flip b[0] ^= 0x80
     flip = False
@@ -135,7 +148,13 @@ def check(ctx, run):
     else:
         (run.proved if rank_ok else run.violation)('R14.2', b.path, 'rank-bytes', 'depth byte, then jentry_compare_level / ARRAY_LEVEL / OBJECT_LEVEL by header kind' if rank_ok else
                                                     'the bytes that prefix an element are not (depth, rank as used by compare)', loc)
-    if formula_ok and flip:
+    if formula_unread and float_select:
+        run.violation('R14.5', b.path, 'float-image', 'the transform applied to the f64 bits is chosen by comparing the float with a constant, not by its sign bit: -0.0 (sign bit set, not < 0.0) '
+                      'gets the transform of the non-negative numbers and sorts below every negative number', loc)
+    elif formula_unread and formula_ok is not False:
+        run.undecided('R14.5', b.path, 'float-image', 'the image of the f64 bits is not written as  s ^ (((s >> 63) as u64) >> 1)  with a sign-byte flip but in another form '
+                      '(a conditional on the sign bit, a helper): whether it is monotone is not decided by this rule', loc)
+    elif formula_ok and flip:
         run.proved('R14.5', b.path, 'float-image', 'v = s ^ (((s >> 63) as u64) >> 1), sign byte ^ 0x80: monotone map of the f64 bits', loc)
     elif formula_ok is None:
         run.undecided('R14.5', b.path, 'float-image', 'no bytes derived from f64::to_bits are pushed in this function (the float image is computed elsewhere): its formula is not decided', loc)
